@@ -4,7 +4,7 @@
    (the concatenation of its segments); [adv k b b'] says b' is b with the first k of them consumed. *)
 From Coq Require Import List String NArith Bool Permutation.
 From FB Require Import Gen.BytesDelegation Model.Transport Proofs.Transport Proofs.TransportMachine
-     Proofs.TransportFamily Proofs.TransportFuse Proofs.TransportAdapter.
+     Proofs.TransportFamily Proofs.TransportLoops Proofs.TransportFuse Proofs.TransportAdapter.
 Import ListNotations.
 Local Open Scope N_scope.
 
@@ -50,6 +50,14 @@ Proof. exact io_read_spec. Qed.
 Theorem C04_read_to_failing_sink : forall count m b,
   exists r, io_read count None m b = (r, b) /\ (r = RErr EFile \/ r = ROk 0 []).
 Proof. exact io_read_fail. Qed.
+(* read_exact_to(file, count), the library loop over read_to, with a sink taking at least one byte per call:
+   all count bytes in order (in however many pieces), or UnexpectedEof with the rest consumed; never out of fuel *)
+Theorem C04_read_exact_to : forall count lim m b, wf_io b -> 1 <= lim ->
+  exists b', rd_read_exact_to count (Some lim) m b =
+               ((if avail b <? count then RErr EEof
+                 else ROk count (map (mget m) (firstn (N.to_nat count) (flat (segs b))))), b') /\
+             adv (N.min count (avail b)) b b' /\ wf_io b'.
+Proof. exact read_exact_to_spec. Qed.
 (* any sequence of reads on one reader: pieces delivered ++ what is unread = the request bytes, in order *)
 Theorem C04_reader_stream : forall l m b, wf_io b ->
   let '(ds, b') := reads l m b in
@@ -92,6 +100,17 @@ Theorem C04_write_from : forall count src m d b, wf_io b ->
    | None => exists r, vw_write_from count src m d b = (r, m, d, b) /\ (r = RErr EFile \/ r = ROk 0 [])
    end).
 Proof. exact vw_write_from_spec. Qed.
+(* write_all_from(file, count), the library loop over write_from: refused without effect when it does not fit;
+   otherwise exactly the first count bytes of the source are stored at the next count addresses, or - short
+   source - WriteZero after storing all of it *)
+Theorem C04_write_all_from : forall count data m d b, wf_io b ->
+  (avail b < count -> vw_write_all_from count (Some data) m d b = (RErr ENoSpace, m, d, b)) /\
+  (count <= avail b ->
+   exists m' d' b' log,
+     vw_write_all_from count (Some data) m d b = ((if lenN data <? count then RErr EEof else ROk 0 []), m', d', b') /\
+     wpost m d b (N.min count (lenN data)) log m' d' b' /\
+     map snd log = firstn (N.to_nat (N.min count (lenN data))) data).
+Proof. exact write_all_from_spec. Qed.
 (* reading back what one store sequence wrote (distinct addresses) gives the data *)
 Theorem C04_stores_read_back : forall m l d, NoDup l -> List.length l = List.length d ->
   map (mget (write_addrs m (combine l d))) l = d.
@@ -294,6 +313,8 @@ Print Assumptions C04_read_exact.
 Print Assumptions C04_read_exact_loop.
 Print Assumptions C04_read_to.
 Print Assumptions C04_read_to_failing_sink.
+Print Assumptions C04_read_exact_to.
+Print Assumptions C04_write_all_from.
 Print Assumptions C04_reader_stream.
 Print Assumptions C04_split_partition.
 Print Assumptions C04_write.
